@@ -7,6 +7,7 @@ use crossterm::{
 
 /// Similar to [`crossterm::Event::KeyCode`] but only contains relevant information.
 #[derive(Debug)]
+#[cfg_attr(feature = "verif", derive(Clone, Copy, PartialEq, Eq))]
 pub enum Key {
     Enter,
     Backspace,
